@@ -230,6 +230,9 @@ func (l *linkedBuffer) recycle() {
 			putBackBufferSlice(slice)
 		}
 	}
+	// slices parked by zero-copy reads must be returned too, otherwise they leak when the stream is closed
+	// without ReleasePreviousRead.
+	l.cleanPinnedList()
 	l.clean()
 	l.recycleMux.Unlock()
 }
